@@ -277,7 +277,7 @@ class Generator:
             else:
                 raise ValueError(e.kind)
             items.append(it)
-        mp_names = {(it.header_tokens[it.header_tokens.index('fn') + 1] if 'ext_trait' in it.entry.opts and it.header_tokens else it.key.split('::')[-1]) for it in items if it.kind == 'fn' and 'mp' in it.entry.opts}
+        mp_names = {(it.header_tokens[it.header_tokens.index('fn') + 1] if 'ext_trait' in it.entry.opts and it.header_tokens else it.key.split('::')[-1]) for it in items if it.kind == 'fn' and 'mp' in it.entry.opts and not (it.impl_header and ' for ' in it.impl_header and 'ext_trait' not in it.entry.opts)}
         extra = []
         for it in items:
             if it.kind == 'fn' and 'mp' in it.entry.opts and it.out_tokens is not None:
@@ -545,8 +545,77 @@ class Generator:
         fi = header.index('fn')
         name = header[fi + 1]
         header[fi + 1] = name + '__mp'
+        trait_dual = bool(it.impl_header and ' for ' in it.impl_header and 'ext_trait' not in it.entry.opts)
+        new_impl_header = it.impl_header
+        if trait_dual:
+            # dual of a method of a std operator trait impl: the trait has no such method, so the dual is emitted as
+            # an inherent method `<m>__mp_<Trait..>` of the Self type; its panic condition comes from the entry option
+            # `mpreq=` (the same expression as the SpecImpl `*_req`), since trait methods cannot carry `requires`
+            ht = it.impl_header.split(' ')
+            fpos = ht.index('for')
+            selfty = ht[fpos + 1:]
+            if selfty[0] == '&':
+                raise ValueError('no must-panic dual for an impl on a reference type')
+            gi = 1
+            gen_toks = []
+            if ht[1] == '<':
+                d = 0
+                while True:
+                    if ht[gi] == '<':
+                        d += 1
+                    elif ht[gi] == '>':
+                        d -= 1
+                        if d == 0:
+                            break
+                    gi += 1
+                gen_toks = ht[1:gi + 1]
+                gi += 1
+            trait_toks = ht[gi:fpos]
+            tid = re.sub(r'[^A-Za-z0-9]+', '_', ''.join(trait_toks)).strip('_')
+            header[fi + 1] = name + '__mp_' + tid
+            # generic parameters that the Self type does not mention move from the impl header to the fn
+            params = []
+            if gen_toks:
+                cur = []
+                d = 0
+                for t in gen_toks[1:-1]:
+                    if t == '<':
+                        d += 1
+                    elif t == '>':
+                        d -= 1
+                    if t == ',' and d == 0:
+                        params.append(cur)
+                        cur = []
+                    else:
+                        cur.append(t)
+                if cur:
+                    params.append(cur)
+
+            def pname(p_):
+                return p_[1] if p_ and p_[0] == 'const' else (p_[0] if p_ else '')
+            keep = [p_ for p_ in params if pname(p_) in selfty]
+            move = [p_ for p_ in params if pname(p_) not in selfty]
+
+            def glist(ps):
+                if not ps:
+                    return []
+                o = ['<']
+                for i_, p_ in enumerate(ps):
+                    if i_:
+                        o.append(',')
+                    o += p_
+                return o + ['>']
+            new_impl_header = ' '.join(['impl'] + glist(keep) + selfty)
+            if move:
+                header[fi + 2:fi + 2] = glist(move)
+            if 'Self' in header and '::' in header and 'Output' in header:
+                raise ValueError('Self::Output in the signature of a trait method dual')
         sig, clauses = split_header(header)
         req, ens, other = [], [], []
+        if trait_dual:
+            req.append(['bn_wf', '(', 'N', ')'])   # A0 (domain) is not a panic condition: it stays a precondition of the dual
+        if trait_dual and it.entry.opts.get('mpreq'):
+            ens.append(['bn_nopanic', '('] + lex(subst(it.entry.opts['mpreq'].replace('~', ' '), self.digit, self.digit2)) + [')'])
         for kw, toks in clauses:
             if kw in ('requires', 'ensures'):
                 # split at depth-0 commas
@@ -613,7 +682,7 @@ class Generator:
         m.identical = it.identical
         m.ghost_counts = it.ghost_counts
         m.code_tokens = it.code_tokens
-        m.impl_header = it.impl_header
+        m.impl_header = new_impl_header
         m.modpath = it.modpath
         m.container = None
         m.header_tokens = h2
